@@ -13,7 +13,7 @@ LEVEL = 'exploration'
 RULE = ('Hypothesis-generated long world plans (60-400 virtual seconds) for the Thrift and ThriftMux stacks built by the public '
         'builders (default aperture balancer, or the heap balancer) with 1-3 endpoints that share one up/down timeline: down = '
         'connects refused and live connections reset (also: down at first connect; Thrift: the server hangs - established connections stay but go unanswered, new connects are refused; ThriftMux: silent black-hole detected by '
-        'ping), up again after 3-150 s, possibly several phases; a caller issues a call every 0.5-2 s (T = 0.3 s) throughout; '
+        'ping), up again after 3-250 s, possibly several phases; a caller issues a call every 0.5-2 s (T = 0.3 s) throughout; '
         'DispatcherClose() at a drawn time, sometimes while down, or inside a reconnect attempt, or from the completion handler of the k-th failed call; resurrector config (5, 60, 1.2) or (2, 10, 1.5). Oracle from '
         'the network log and call outcomes: while everything is down no call waits (completes within 5 ms); once the fault has '
         'been observed every call fails with FailedFastError until a connect is accepted; reconnect attempts while down are '
@@ -54,7 +54,7 @@ def plans(draw):
     t = up_at
   for _ in range(draw(st.integers(1, 2)) if mode == 'shared' else 1):
     start = t + draw(st.sampled_from([2, 5, 11, 33])) * 1000 + draw(st.integers(0, 999))
-    dur = draw(st.sampled_from([3, 8, 20, 45, 90, 150])) * 1000 + draw(st.integers(0, 999))
+    dur = draw(st.sampled_from([3, 8, 20, 45, 90, 150, 250])) * 1000 + draw(st.integers(0, 999))
     kind = draw(st.sampled_from(['reset', 'reset', 'silent'])) if stack == 'thriftmux' else draw(st.sampled_from(['reset', 'reset', 'hang']))
     if mode == 'staggered' and kind == 'hang':
       kind = 'reset'      # endpoints that go on hanging while others are back make calls time out legitimately
